@@ -55,6 +55,7 @@ class Execution:
         self.clock = VClock(k=opts.get("k", 50.0))
         self.backend = Backend(self.clock, input_payload=scenario.get("input", "{}"))
         self.backend.timer_lag = float((scenario.get("world") or {}).get("timer_lag", 0.0))
+        self.backend.skew = float((scenario.get("world") or {}).get("clock_skew", 0.0))
         self.backend.empty_page_every = int((scenario.get("pages") or {}).get("empty_every", 0))
         self.backend.on_apply = self._on_apply
         self.trace: list[dict] = []
@@ -191,7 +192,7 @@ class Execution:
         timers = b.armed_timers()
         if timers:
             t0 = timers[0][0]
-            self.clock.advance_to(t0 + b.timer_lag + 0.001)
+            self.clock.advance_to(t0 - b.skew + b.timer_lag + 0.001)
             if self.world.get("timers") == "one":
                 b.fire_timer(timers[0][1])
             else:
